@@ -89,15 +89,13 @@ def pubsOf (cmds : List (Nat × List Bytes)) : List Pub :=
 
 /-- two publishes of one publisher to one channel whose write tasks reach a common connection -/
 def sharedWriters (pubs : List Pub) (tasks : List Push) : Bool :=
-  let got (c : Nat) (m : Bytes) : Bool := tasks.any fun p => match p with
-    | .message c' _ m' => c' == c && m' == m
-    | _ => false
+  let groups := (pubs.map fun p => (p.publisher, p.channel)).eraseDups
   let conns := (tasks.map (·.conn)).eraseDups
-  let rec go : List Pub → Bool
-    | [] => false
-    | p :: rest => (rest.any fun q => q.publisher == p.publisher && q.channel == p.channel && p.payload != q.payload &&
-        conns.any fun c => got c p.payload && got c q.payload) || go rest
-  go pubs
+  groups.any fun g =>
+    let ps := ((pubs.filter fun p => p.publisher == g.1 && p.channel == g.2).map (·.payload)).eraseDups
+    conns.any fun c => (ps.filter fun m => tasks.any fun t => match t with
+      | .message c' _ m' => c' == c && m' == m
+      | _ => false).length ≥ 2
 
 /-- the class of a block: `mode` is seq | burst | held | heldrev -/
 def classifyBlock (mode : String) (t : Table) (cmds : List (Nat × List Bytes)) : String :=
